@@ -1446,9 +1446,11 @@ func handleClientMessage(c *webClient, m clientMessage) error {
 				Value:    s,
 			})
 		}
+		c.group = g
 		if redirect := g.Description().Redirect; redirect != "" {
 			// We normally redirect at the HTTP level, but the group
 			// description could have been edited in the meantime.
+			leaveGroup(c)
 			username := c.username
 			return c.write(clientMessage{
 				Type:     "joined",
@@ -1458,7 +1460,6 @@ func handleClientMessage(c *webClient, m clientMessage) error {
 				Value:    redirect,
 			})
 		}
-		c.group = g
 	case "request":
 		requested, err := parseRequested(m.Request)
 		if err != nil {
